@@ -116,6 +116,9 @@ class Multiplication:
         continue
       processed.append(l)
       lc = l.clone()
+      if not gfapy.is_placeholder(lc.name):
+        # the copy of a named edge needs a name of its own
+        lc.name = self._compute_copy_names(lc.name, 2)[0]
       if lc.from_segment == segment.name:
         lc.from_segment = clone_name
       if lc.to_segment == segment.name:
